@@ -2,6 +2,7 @@
  * Oracle: byte-wise definition with gf.c arithmetic. Out-of-bounds accesses are caught by the arena
  * (exact-size heap blocks under ASan / memcheck, trailing guard page + PROT_READ sources on rel). */
 #include "common.h"
+#include <sys/mman.h>
 #include "arena.h"
 #include "gf.h"
 #include "rs28_tu.h"
@@ -182,6 +183,33 @@ static void wrap_case(int k, uint32_t cnt, uint32_t size, rng_t *r)
 	rep_case_done(1, 0, 1);
 }
 
+/* operands in different regions of the address space whose addresses are congruent modulo 2^32 up to less than the symbol size:
+ * a distance or overlap test done in 32 bits takes them for overlapping. Needs two mappings exactly 4 GiB (8, 12 GiB) apart;
+ * when the address space does not allow it the case is skipped and counted. */
+static void far_apart_case(int k, uint32_t size, uint64_t gib, int d, rng_t *r)
+{
+	if (!rep_case("kernel=%s size=%u operands %llu GiB %+d bytes apart", kname[k], size, (unsigned long long)gib, d)) return;
+	size_t span = 1u << 20; uint8_t *lo = MAP_FAILED, *hi = MAP_FAILED;
+	for (uintptr_t base = 0x100000000000ULL; base < 0x100000000000ULL + (16ULL << 32) && hi == MAP_FAILED; base += 1ULL << 32) {
+		lo = mmap((void *)base, span, PROT_READ | PROT_WRITE, MAP_PRIVATE | MAP_ANONYMOUS | MAP_FIXED_NOREPLACE, -1, 0);
+		if (lo == MAP_FAILED) continue;
+		hi = mmap((void *)(base + (gib << 32)), span, PROT_READ | PROT_WRITE, MAP_PRIVATE | MAP_ANONYMOUS | MAP_FIXED_NOREPLACE, -1, 0);
+		if (hi == MAP_FAILED) { munmap(lo, span); lo = MAP_FAILED; }
+	}
+	if (hi == MAP_FAILED) { rep_count("address_layout_unavailable_far_apart_case_skipped", 1); rep_case_done(0, 0, 1); return; }
+	uint8_t *a = lo + 4096, *b = hi + 4096 + d, *a0 = malloc(size + 1), *exp = malloc(size + 1);
+	fill(r, a, size, 0); fill(r, b, size, 0); memcpy(a0, a, size);
+	void *tab[1] = { b };
+	for (uint32_t i = 0; i < size; i++) exp[i] = a0[i] ^ b[i];
+	if (k == K_ADD1) of_add_to_symbol(a, b, size);
+	else if (k == K_FROM) of_add_from_multiple_symbols(a, (const void **)tab, 1, size);
+	else { /* destination far away, source here */ memcpy(a0, b, size); for (uint32_t i = 0; i < size; i++) exp[i] = a0[i] ^ a[i]; of_add_to_multiple_symbols(tab, a, 1, size); }
+	if (memcmp(k == K_TO ? b : a, exp, size)) bad(k, "wrong", "size=%u operands %llu GiB %+d bytes apart", size, (unsigned long long)gib, d);
+	munmap(lo, span); munmap(hi, span); free(a0); free(exp);
+	rep_count("kernel_calls", 1); rep_count("far_apart_operand_pairs", 1);
+	rep_case_done(1, 0, 1);
+}
+
 int p_c13(void)
 {
 	long unit = 0;
@@ -238,6 +266,16 @@ int p_c13(void)
 			wrap_case(k, wp[w][0], wp[w][1], &r);
 		}
 	}
+	rep_unit(unit);
+	if (rep_unit_mine(unit)) {
+		rng_t r = rng_make(g_run.seed, 1347, 0);
+		static const uint32_t fs[] = { 2, 13, 64, 256, 1021, 4096 }; static const int ds[] = { 0, 1, -1, 7, 64 };
+		for (int k = K_ADD1; k <= K_TO; k++) for (unsigned si = 0; si < 6; si++) for (unsigned di = 0; di < 5; di++) {
+			if (!g_run.thorough && (si + di + (unsigned)k) % 2) continue;
+			far_apart_case(k, fs[si], 1 + (si + di) % 3, ds[di], &r);
+		}
+	}
+	unit++;
 	/* multiply-accumulate kernels */
 	for (int k = K_RS28; k <= K_M4C; k++)
 		for (uint32_t s0 = 0; s0 <= maxsz; s0 += 10, unit++) {
